@@ -853,6 +853,56 @@ func trimDFA(r *rng.R, maxN int) aut {
 	return a
 }
 
+// inflate duplicates states of a trim DFA: every copy gets the outgoing transitions of its
+// original and takes over some of its incoming transitions (at least one), so the result is
+// still trim, accepts the same language and has many equivalent states.
+func inflate(r *rng.R, a aut) aut {
+	ids := stateIDs(a, false)
+	next := ids[len(ids)-1] + 1
+	b := aut{start: a.start, fin: append([]int{}, a.fin...)}
+	for _, t := range a.adds {
+		b.adds = append(b.adds, append([]int{}, t...))
+	}
+	k := r.Range(1, 4)
+	for c := 0; c < k; c++ {
+		var incoming []int
+		orig := ids[r.Intn(len(ids))]
+		for i, t := range b.adds {
+			if t[2] == orig && t[0] != orig {
+				incoming = append(incoming, i)
+			}
+		}
+		if len(incoming) == 0 || (len(incoming) < 2 && orig != a.start) {
+			continue
+		}
+		cp := next
+		next++
+		for _, f := range b.fin {
+			if f == orig {
+				b.fin = append(b.fin, cp)
+				break
+			}
+		}
+		for _, t := range append([][]int{}, b.adds...) {
+			if t[0] == orig {
+				tgt := t[2]
+				b.adds = append(b.adds, []int{cp, t[1], tgt})
+			}
+		}
+		b.adds[incoming[0]][2] = cp // the copy is reachable; the original keeps its last incoming edge
+		for k := 1; k+1 < len(incoming); k++ {
+			if r.Chance(1, 2) {
+				b.adds[incoming[k]][2] = cp
+			}
+		}
+		if orig == a.start && len(incoming) > 1 && r.Chance(1, 2) {
+			b.adds[incoming[len(incoming)-1]][2] = cp
+		}
+		ids = append(ids, cp)
+	}
+	return b
+}
+
 func chainDFA(r *rng.R, n int) aut {
 	// ids: a random permutation of a sparse range so that ReindexStates has work to do
 	ids := make([]int, n)
@@ -920,6 +970,11 @@ func shapes(w *W, r *rng.R, thorough bool) {
 				ops = append(ops, renameOp(r, a, 0, false))
 			}
 			runCase(w, "D", "W6", []aut{a}, ops)
+		}
+		// trim DFAs with duplicated (equivalent) states: Minimize has to merge them all
+		for i := 0; i < 200; i++ {
+			a := inflate(r, trimDFA(r, 6))
+			runCase(w, "D", "W6", []aut{a}, []string{"min 0", "acc 0"})
 		}
 		// NFAs with an accepting start state, transitions into the start state, sparse ids
 		for i := 0; i < 150; i++ {
